@@ -31,6 +31,19 @@ QUERIES = [
     ("X.fillna(0).abs().rename(columns={'a': 'x'})", "chain"),
     ("X.a.to_frame()", "to_frame"),
     ("X.index", "index"),
+    # operations whose tasks look at neighbouring partitions or at the partition's position: selecting afterwards is not
+    # the same as selecting the inputs first
+    ("X.shift(1)", "window-shift"),
+    ("X.a.diff()", "window-diff"),
+    ("X.c.shift(-1)", "window-shift-back"),
+    ("X.ffill()", "window-ffill"),
+    ("X.b.bfill()", "window-bfill"),
+    ("X.loc[1:3]", "loc-slice"),
+    ("X.loc[2:]", "loc-slice-open"),
+    ("X.cumsum()", "cumulative"),
+    ("X.map_partitions(lambda d, partition_info=None: d + (partition_info['number'] if partition_info else 0), meta=X._meta)", "partition-info"),
+    ("X.head(2, npartitions=-1, compute=False)", "head-all"),
+    ("X.tail(1, compute=False)", "tail"),
 ]
 
 
@@ -81,6 +94,8 @@ def _cfgs(tier):
                 k = 7
             if "npartitions=2" in text:
                 k = 2
+            if tag in ("head-all", "tail"):
+                k = 1
             sels = [("partitions", P) for P in partition_lists(k, tier)]
             if k == 7:
                 sels += [("partitions", P) for P in ([2, 4, 6], [5, 6, 1, 3], [6, 5, 4, 3, 2], [1, 3, 4, 6, 0])]
@@ -182,6 +197,8 @@ def check(cfg) -> list[Result]:
         full_plan = optimize(q.expr, fuse=True)
     except Exception as e:
         return [Result(name, SKIPPED, "", f"query does not build: {type(e).__name__}: {str(e)[:150]}")]
+    if (kind == "partitions" and arg and max(arg) >= q.npartitions) or (kind == "head" and arg[1] > q.npartitions):
+        return [Result(name, SKIPPED, "", "selection outside the query's partition count", extra={"unsupported": "selection outside the query's partition count"})]
     try:
         full_paths, it0 = prun.symexec(full_plan, env, gather=False)
     except Unsupported as e:
